@@ -275,6 +275,10 @@ func evalC16L(r *runner, u *lexUnit, c LexCase) string {
 			return fmt.Sprintf("grammar:\n%s\ninput %q: after %d Scan calls and Reset, token %d is %s %q at %d:%d:%d; a fresh lexer returns %s %q at %d:%d:%d",
 				u.src, c.Src, c.K, i+1, tokName(u.lx, b), b.Lit, b.Off, b.Line, b.Col, tokName(u.lx, a), a.Lit, a.Off, a.Line, a.Col)
 		}
+		if a.Ctx != b.Ctx {
+			return fmt.Sprintf("grammar:\n%s\ninput %q: after %d Scan calls and Reset, token %d carries the lexer's Context: %v; from a fresh lexer with the same Context: %v",
+				u.src, c.Src, c.K, i+1, b.Ctx, a.Ctx)
+		}
 	}
 	nl, inv := false, false
 	consumed := 0
